@@ -165,6 +165,7 @@ struct St {
     active: i64,
     born_logged: bool,
     quit_set: bool,
+    generation: u64,
 }
 
 struct Global {
@@ -177,14 +178,16 @@ static G: Global = Global { m: Mutex::new(None), cv: Condvar::new() };
 /// The worker index of the calling thread. Its destructor notices a worker
 /// thread that dies (panics) while holding or waiting for the baton, which
 /// would otherwise leave every other worker blocked for ever.
-struct Tid(Cell<Option<usize>>);
+struct Tid(Cell<Option<usize>>, Cell<u64>);
 
 impl Drop for Tid {
     fn drop(&mut self) {
         if let Some(me) = self.0.get() {
             let mut g = G.m.lock().unwrap_or_else(|e| e.into_inner());
             if let Some(st) = g.as_mut() {
-                if me < st.n && st.ts[me] != TS::Done {
+                // Thread-local destructors of scoped threads may run after the
+                // scope has returned; never touch a later walk's state.
+                if st.generation == self.1.get() && me < st.n && st.ts[me] != TS::Done {
                     st.ts[me] = TS::Done;
                     if st.out.failure.is_none() {
                         st.out.failure = Some(format!("PANIC: worker {me} died without reaching the end of its loop"));
@@ -198,7 +201,8 @@ impl Drop for Tid {
     }
 }
 
-thread_local!(static TID: Tid = const { Tid(Cell::new(None)) });
+thread_local!(static TID: Tid = const { Tid(Cell::new(None), Cell::new(0)) });
+static GENERATION: std::sync::atomic::AtomicU64 = std::sync::atomic::AtomicU64::new(1);
 
 fn mix(x: &mut u64) -> u64 {
     *x = x.wrapping_add(0x9E3779B97F4A7C15);
@@ -237,6 +241,7 @@ pub fn begin(cfg: Config) {
         active: 0,
         born_logged: false,
         quit_set: false,
+        generation: GENERATION.fetch_add(1, std::sync::atomic::Ordering::SeqCst),
     });
 }
 
@@ -455,6 +460,7 @@ impl St {
 }
 
 fn abort_thread() -> ! {
+    TID.with(|c| c.0.set(None));
     if std::env::var_os("RGSCHED_OUT").is_some() {
         // Inside the real binary: the outcome file has been written by the
         // thread that detected the failure.
@@ -487,7 +493,13 @@ pub extern "C-unwind" fn ripgrep_verif_event(s: u32, arg: usize) -> i32 {
     };
     let mut g = G.m.lock().unwrap_or_else(|e| e.into_inner());
     let st = match g.as_mut() {
-        Some(st) if st.n > 0 && me < st.n => st,
+        Some(st) if st.n > 0 && me < st.n => {
+            if s == site::WORKER_BEGIN {
+                let gen = st.generation;
+                TID.with(|c| c.1.set(gen));
+            }
+            st
+        }
         _ => {
             if s == site::WORKER_END {
                 TID.with(|c| c.0.set(None));
